@@ -405,7 +405,7 @@ inductive Frame
   | panic
   /-- release builds, length < 18: the subtraction wraps, the condition never holds again -/
   | stall
-  /-- repaired: a declared length below 19 is a framing error -/
+  /-- repaired: a declared length outside 19..=4096 is a framing error (RFC 4271 4.1) -/
   | bad
   deriving DecidableEq, Repr
 
@@ -414,7 +414,7 @@ def declLen (buf : Bytes) : Nat := be16 (buf.getD 16 0) (buf.getD 17 0)
 
 def parseFrame (v : Variant) (buf : Bytes) : Frame :=
   if buf.length < 18 then .needMore
-  else if v.frame && declLen buf < 19 then .bad
+  else if v.frame && (declLen buf < 19 || 4096 < declLen buf) then .bad
   else if declLen buf < 18 then (if v.checked then .panic else .stall)
   else if buf.length < declLen buf then .needMore
   else .frame (buf.take (declLen buf)) (buf.drop (declLen buf))
